@@ -191,7 +191,13 @@ def main():
     # property binary
     bflav, srcs, extra, link, plain_srcs = BINARIES[binary]
     assert bflav == flavour, "binary %s belongs to flavour %s" % (binary, bflav)
-    sim_hash = repo_hash + " " + tree_hash(os.path.join(VERIF, "sim")) + " " + " ".join(extra + link)
+    h = hashlib.sha256()
+    for sfile in srcs + plain_srcs:
+        with open(os.path.join(VERIF, "sim", sfile), "rb") as fh:
+            h.update(fh.read())
+    sim_hash = (repo_hash + " " + tree_hash(os.path.join(VERIF, "sim", "core")) + " " +
+                tree_hash(os.path.join(VERIF, "sim", "seams")) + " " + h.hexdigest() + " " +
+                " ".join(extra + link))
     exe = os.path.join(fdir, binary)
     if read(exe + ".stamp") != sim_hash or not os.path.exists(exe):
         jobs = []
